@@ -269,7 +269,32 @@ fn gen_coarse(prop: &str, base_seed: u64, batch: &str, run: u64, rng: &mut Rng) 
             p.macro_form = false;
         }
     }
-    let (threads, prelude) = gen_history(rng, &config, &ho);
+    let (mut threads, prelude) = gen_history(rng, &config, &ho);
+    if prop == "C03" && batch == "user-faults" {
+        // some threads keep their clone on their own stack and die of an uncaught user panic: the
+        // clone is dropped while unwinding; what the original reports still follows the counts
+        for t in 1..threads.len() {
+            let only_shared_receivers = threads[t].iter().all(|op| match op {
+                Op::Call { m, .. } => m.info().recv == crate::spec::Recv::Ref,
+                _ => true,
+            });
+            if !only_shared_receivers || !rng.chance(1, 3) {
+                continue;
+            }
+            threads[t].retain(|op| !matches!(op, Op::Drop { slot } if *slot == t as u8));
+            threads[t].insert(0, Op::Hold { slot: t as u8 });
+            for op in threads[t].iter_mut() {
+                if let Op::Call { slot, catch, fault, .. } = op {
+                    if *slot == t as u8 {
+                        *slot = 0;
+                    }
+                    if fault.is_some() && rng.chance(2, 3) {
+                        *catch = false;
+                    }
+                }
+            }
+        }
+    }
     Scenario {
         prop: prop.to_string(),
         base_seed,
